@@ -169,8 +169,9 @@ class Method:
 
 class TSpec:
     """body: ('struct', [Field]) | ('iface', [Embed|Method]) | ('other', texpr)"""
-    def __init__(self, name, body, alias=False):
+    def __init__(self, name, body, alias=False, tparams=""):
         self.name, self.body, self.alias = name, body, alias
+        self.tparams = tparams          # Go text of the type parameter list, e.g. "[T any]" (not part of the model)
 
     def coq(self):
         if self.body[0] == "struct":
@@ -185,8 +186,8 @@ class TSpec:
         eq = "= " if self.alias else ""
         if self.body[0] == "struct":
             if not self.body[1]:
-                return "%s %sstruct{}" % (self.name, eq)
-            return "%s %sstruct {\n%s}" % (self.name, eq, "".join(f.go() for f in self.body[1]))
+                return "%s%s %sstruct{}" % (self.name, self.tparams, eq)
+            return "%s%s %sstruct {\n%s}" % (self.name, self.tparams, eq, "".join(f.go() for f in self.body[1]))
         if self.body[0] == "iface":
             if not self.body[1]:
                 return "%s %sinterface{}" % (self.name, eq)
@@ -280,7 +281,7 @@ class GoFile:
         return ("{| f_name := %s; f_pkg := %s; f_imports_dest := %s; f_decls := %s |}"
                 % (cs(self.name), cs(self.pkg), clist(cs(x) for x in self.dest_imports), clist(ds)))
 
-    def go(self, dest_import_path=None):
+    def go(self, dest_import_path=None, foreign=None):
         if self.raw is not None:
             return self.raw
         body = []
@@ -307,6 +308,9 @@ class GoFile:
         for n in self.dest_imports:
             if re.search(r"\b%s\." % re.escape(n), code) and dest_import_path:
                 imps.append('%s "%s"' % (n, dest_import_path))
+        for q, path in sorted((foreign or {}).items()):
+            if re.search(r"\b%s\." % re.escape(q), code):
+                imps.append('"%s"' % path)
         head = "package %s\n\n" % self.pkg
         if imps:
             head += "import (\n" + "".join("\t" + i + "\n" for i in imps) + ")\n\n"
@@ -333,6 +337,7 @@ class Case:
         self.text_patch = None       # (relative file, new text) applied after rendering (opaque cases)
         self.pkgname = "p"
         self.destname = "dest"
+        self.foreign = {}            # local name of an imported package -> [TSpec] (directory and package of the same name)
 
     # --- Coq
     def coq_entry(self, e):
@@ -348,12 +353,13 @@ class Case:
             else:
                 dests.append("(%s, DestFile)" % cs(sp))
         return ("{| i_args := %s; i_pkgdirs := %s; i_inmodule := %s; i_files := %s; i_extra := %s; "
-                "i_dests := %s; i_render := %s; i_merge_ok := %s |}"
+                "i_dests := %s; i_render := %s; i_merge_ok := %s; i_foreign := %s |}"
                 % (clist(cs(a) for a in self.args), clist(cs(d) for d in self.pkgdirs), cb(self.inmodule),
                    clist(f.coq() for f in self.files),
                    clist("(%s, %s)" % (cs(n), self.coq_entry(e)) for n, e in sorted(self.extra.items())),
                    clist(dests), clist("(%s, %s)" % (cs(t), r) for t, r in sorted(self.render.items())),
-                   cb(self.merge_ok)))
+                   cb(self.merge_ok),
+                   clist("(%s, %s)" % (cs(q), clist(t.coq() for t in ts)) for q, ts in sorted(self.foreign.items()))))
 
     # --- files to write, relative to the case directory; the package lives in p/
     def layout(self, import_base):
@@ -362,8 +368,11 @@ class Case:
         for sp, d in self.dests.items():
             if d[0] == "pkg":
                 destpath = import_base + "/" + d[3]
+        fpaths = {q: import_base + "/" + q for q in self.foreign}
+        for q, ts in self.foreign.items():
+            out[q + "/x.go"] = "package %s\n\n" % q + "\n".join(go_tdecl([t]) for t in ts)
         for f in self.files:
-            out["p/" + f.name] = f.go(destpath)
+            out["p/" + f.name] = f.go(destpath, fpaths)
         for n, e in self.extra.items():
             if e[0] == "file":
                 out["p/" + n] = e[1] + "\n" + e[2]
@@ -485,6 +494,45 @@ def new_struct(rng, name, earlier, exported_ok=True):
                                 rng.choice([None, 'json:"%s"' % fname.lower()])))
     rng.shuffle(fields)
     return TSpec(name, ("struct", fields))
+
+
+def ext_scope():
+    return [TSpec("Fine", ("struct", [Field(["W"], tid("int")), Field(["x"], tid("string"))])),
+            TSpec("Deep", ("struct", [Field([], tid("Fine")), Field(["z"], tid("int"))]))]
+
+
+def decorate_embeds(rng, c):
+    """valid embedded fields that are not plain identifiers: an instantiated generic struct of the package and
+    struct types of an imported package (one of which embeds another type of that package)"""
+    ss = [(f, t) for f, t in c.all_tspecs() if t.body[0] == "struct" and not t.tparams]
+    if not ss:
+        return
+    for _ in range(rng.randint(1, 2)):
+        f, t = rng.choice(ss)
+        k = rng.choice(["generic", "generic_ptr", "ext_fine", "ext_deep_ptr", "ext_deep"])
+        if k.startswith("generic"):
+            if not any(x.name == "Gbox" for _, x in c.all_tspecs()):
+                c.files[0].decls.insert(0, ("type", [TSpec("Gbox", ("struct", [Field(["gv"], tid("T"))]), tparams="[T any]")]))
+                if c.sub == "new":
+                    c.uncertain.append("Gbox")
+            e = ("gen", "Gbox", tid(rng.choice(["int", "string"])))
+            if any(not x.names and (x.typ == e or x.typ == tstar(e)) for x in t.body[1]) or t.name == "Gbox":
+                continue
+            if any(not x.names and go_t(core_t(x.typ)).startswith("Gbox[") for x in t.body[1]):
+                continue
+            t.body[1].insert(0, Field([], tstar(e) if k == "generic_ptr" else e))
+        else:
+            c.foreign["ext"] = ext_scope()
+            n = "Fine" if k == "ext_fine" else "Deep"
+            if any(not x.names and core_t(x.typ) in (tsel("ext", "Fine"), tsel("ext", "Deep")) for x in t.body[1]):
+                continue
+            e = tsel("ext", n)
+            t.body[1].insert(0, Field([], tstar(e) if k == "ext_deep_ptr" else e))
+        c.labels.append("embed:" + k)
+
+
+def core_t(t):
+    return t[1] if t[0] == "star" else t
 
 
 def base_new(rng):
@@ -1691,6 +1739,8 @@ def _gen_case(rng, sub=None, ndamage=None):
             c.flags.append("-alias=" + alias)
         c.mapkey = alias or c.destname
         add_manual(rng, c, c.mapkey)
+    if sub in ("new", "map") and rng.random() < 0.3:
+        decorate_embeds(rng, c)
     if rng.random() < 0.3:
         c.cwd_is_pkg = False
         c.dirarg = rng.choice(["p", "./p"])
